@@ -20,20 +20,27 @@ SPEC = {
                   "idle = timeout is honoured, with or without churn (F24 repair: evict and the lookup use the same boundary). "
                   "TCP/UDP/default timeouts of an unconfigured firewall "
                   "and the protocol numbers are regenerated from the code on every run and pinned to 12/3/10 min, 6/17/1. "
-                  "The model is tied to firewall.go/timeout.go/outside.go by histories of allow/deny/sleep over 3-5 flows and 4 "
-                  "peers with gaps just below/at/above each timeout, with and without churn, nil conntrack cache, real "
+                  "With a routine-local conntrack cache (firewall/cache.go, modelled: a hit passes without touching the table, "
+                  "entries enter only on a non-expired, revalidated table hit, emptied at every tick of the cache ticker): the "
+                  "verdicts satisfy the specification with a cache on all histories; a packet no rule allows passes only if the table "
+                  "honours its flow now or honoured it since the last tick (bounded staleness: idle <= timeout + one cache period), "
+                  "and never after a refused packet of the same flow. "
+                  "The model is tied to firewall.go/timeout.go/outside.go/firewall/cache.go by histories of allow/deny/sleep over 3-5 flows and 4 "
+                  "peers with gaps just below/at/above each timeout, with and without churn, with a nil conntrack cache and with the real "
+                  "ConntrackCacheTicker (1 s period, its goroutine inside the synctest bubble; expired flows asked twice inside one "
+                  "tick, stale flows riding on the cache until the tick), real "
                   "certificates and real rule tables; the specification is evaluated on every verdict the real Drop returned.",
     "level_note": "Trusted: Coq kernel; the harness, the overlay shim, Go's testing/synctest virtual clock (all time.Now() reads "
                   "inside one Drop return the same instant). Rule matching (C16) and the address checks (C17) are taken from the "
-                  "real code per (rule set, peer, tuple) and are abstract in the theorems. The routine-local ConntrackCache is "
-                  "excluded (Drop with nil cache; documented staleness of one cache tick). The correspondence is differential "
+                  "real code per (rule set, peer, tuple) and are abstract in the theorems. A tick of the cache ticker due at the very "
+                  "instant of a packet is counted before the packet (synctest.Wait). The correspondence is differential "
                   "testing (boundary sweep + random), so the link model<->Go is as strong as its generator. time.Time.Sub "
                   "saturation (instants ~292 years apart) is not modelled.",
     "build_comp": "conntrack",
     "gens": ["gen_conntrack"],
     "props": ["props/C18.v"],
     "corr": ["corr/Conntrack_corr.v"],
-    "comps": [{"comp": "conntrack", "n_quick": 200, "n_thorough": 6000}],
+    "comps": [{"comp": "conntrack", "n_quick": 220, "n_thorough": 6000}],
     "trusted": ["model/Conntrack.v is a hand-written mirror of Firewall.Drop, inConns (incl. the F4 idle-expiry check), addConn, "
                 "evict (incl. the F24 boundary) and of newPacket's orientation; model/Wheel.v (C33) is the timer wheel; tied by the correspondence",
                 "gen/Consts_Conntrack.v is printed by the harness from the constants compiled in from /repo and from a firewall "
@@ -41,6 +48,7 @@ SPEC = {
                 "allowed / addr_ok are tabulated per case by the real FirewallTable.match and the real address lookups"],
     "assumptions": ["sync.Mutex provides mutual exclusion on the conntrack table (Drop is modelled as atomic)",
                     "the clock read by time.Now() never goes backwards (sleeps are >= 0); one instant per Drop",
-                    "Drop is called with a nil routine cache"],
+                    "the nil-cache theorems are about Drop with a nil routine cache; the cache theorems about one routine with its own "
+                    "cache and ticker"],
     "classify": classify,
 }
